@@ -193,4 +193,25 @@ example : (runOp (.waitTimeout (150 * ms)) ⟨.running 7, false⟩
 example : ClockOK 0 [(.clock, .time 5), (.sleep 10, .ok), (.clock, .time 15)] := by simp [ClockOK]
 example : ¬ ClockOK 0 [(.clock, .time 5), (.sleep 10, .ok), (.clock, .time 14)] := by simp [ClockOK]
 
+/-- **C11 (an exit is reported by the call during which it is observed: no nap is the last thing before "still
+    running").**  Whenever `wait_timeout(d)` answers "still running", the last two things it did were a status check
+    (`waitpid(WNOHANG)`) that said so and a clock reading at or past the deadline.  Every nap is therefore followed
+    by another status check within the same call, so a child that exits during a nap -- the last one included -- is
+    reported by this call, at most one nap (100 ms) after it happened. -/
+theorem c11_none_only_after_a_status_check (pid : Nat) (det : Bool) (d : Nat) (rs : List Resp)
+    (h : (waitTimeout ⟨.running pid, det⟩ d rs).ret = .none) :
+    ∃ pre po w now t0, (waitTimeout ⟨.running pid, det⟩ d rs).log =
+        pre ++ [(.waitpid pid true, .wp po w), (.clock, .time now)] ∧ po ≠ pid ∧ t0 + d ≤ now := by
+  unfold waitTimeout at h ⊢
+  simp only at h ⊢
+  cases rs with
+  | nil => simp at h
+  | cons r rs1 =>
+    cases r with
+    | time t0 =>
+      simp only [Out.pre] at h ⊢
+      obtain ⟨pre, po, w, now, hl, hne, hle⟩ := wtLoop_none_ends_with_check pid det (t0 + d) (1 * ms) rs1 h
+      exact ⟨_ ++ pre, po, w, now, t0, by rw [hl, List.append_assoc], hne, hle⟩
+    | _ => simp at h
+
 end Life
